@@ -93,6 +93,10 @@ type vlpStreamSpec struct {
 	// StopAfter: acceptor calls CloseRead after reading that many bytes (-1: never).
 	ResetAfter int64 `json:"reset_after"`
 	StopAfter  int64 `json:"stop_after"`
+	// PauseMs: after the last Write the writer flushes and waits this many virtual ms before
+	// it closes, so that the FIN travels in a frame of its own (and, under loss, gets
+	// retransmitted together with data the peer already has).
+	PauseMs int `json:"pause_ms,omitempty"`
 }
 
 type vlpRunConfig struct {
@@ -217,10 +221,21 @@ func vlpBudget(maxTotal int64, bufs ...[3]int64) int64 {
 
 func vlpGenStreams(rng *rand.Rand, maxStreams int, maxTotal int64) []vlpStreamSpec {
 	n := 1 + rng.IntN(maxStreams)
+	// a quarter of the runs are quiet connections: one or two short streams, so that
+	// acknowledgements are rare and a lost one is not covered by the next
+	quiet := rng.IntN(4) == 0
+	if quiet {
+		n = 1 + rng.IntN(2)
+	}
 	var out []vlpStreamSpec
 	budget := maxTotal
 	size := func() int64 {
 		var v int64
+		if quiet {
+			v = min(1+rng.Int64N(3000), budget)
+			budget -= v
+			return v
+		}
 		switch rng.IntN(6) {
 		case 0:
 			v = 0
@@ -251,6 +266,9 @@ func vlpGenStreams(rng *rand.Rand, maxStreams int, maxTotal int64) []vlpStreamSp
 		s.ReadMax = []int{1, 13, 512, 4096, 65536}[rng.IntN(5)]
 		if s.ReadMax < 512 && s.Fwd+s.Rev > 20000 {
 			s.ReadMax = 4096
+		}
+		if quiet || rng.IntN(3) == 0 {
+			s.PauseMs = []int{1, 5, 30, 200, 1500}[rng.IntN(5)]
 		}
 		out = append(out, s)
 	}
@@ -436,6 +454,10 @@ func vlpRunTransfer(seed uint64, rc *vlpRunConfig, setup func(p *vlpPair), viol 
 			s.Reset(uint64(1000 + ln.Lane))
 			ln.WriterDone.Store(true)
 			return
+		}
+		if spec.PauseMs > 0 {
+			s.Flush()
+			time.Sleep(time.Duration(spec.PauseMs) * time.Millisecond)
 		}
 		ln.WClosed.Store(true)
 		if closeAll {
